@@ -30,6 +30,19 @@ CHECKS = {
     ),
 }
 
+CHECKS["C20"] = dict(
+    text=("Wrap.tla transcribes find_words_ascii_space, LineWrapper::wrap (carry-over indent, trailing-space trimming, byte/column "
+          "bookkeeping), display_width with its control-sequence flag and StyledStr::wrap's segmentation; the declarative property "
+          "(an alignment that only deletes inter-word spaces before an inserted break + indent, equal non-space content, width bound "
+          "for plain text, escapes intact for styled text) is checked by TLC for every text over 8 symbols up to the bound x widths; "
+          "every (text, width) is rendered through the real code via the public help template and compared; random long texts "
+          "recorded from the real code are validated by Trace_C20.tla, which evaluates the declarative predicates on the "
+          "implementation's output (a different but property-satisfying wrapping is a benign divergence)."),
+    ref="§5.C20",
+    note="Width 0 of the internal function is not reachable through the public API (term_width(0) means unlimited).",
+    technique="TLA+ spec (Wrap.tla) model-checked with TLC; TLC-enumerated cases replayed on the real wrappers; recorded outputs validated by a TLA+ trace spec",
+)
+
 NOT_YET = "check not built yet in this round (specification module planned in DESIGN.md §4/§5); not claimed until its check exists"
 
 
